@@ -680,6 +680,105 @@ def kick_histories(r, thorough):
     return cases
 
 
+def failed_event_histories(r, thorough):
+    """directed: the modulator's event forwarding FAILS exactly on a MEMBER_LEFT (a leave, an owner's removal of a member, a
+    disconnect clean-up).  The departure must still be complete in both views (the requester gets an ERROR, K18a: no event
+    reaches the members), an emptied channel must be gone — whoever joins next creates it afresh (default configuration and
+    ACLs, ownership) — ends with the audit."""
+    import srvmon
+    cases = []
+    variants = ["member_leaves", "owner_kicks", "last_leaves_rejoin", "second_connection_leaves", "hangup_member"]
+    for i in range(100 if thorough else 20):
+        v = variants[i % len(variants)]
+        mod = r.choice([MOD_CONFIGS[3], MOD_CONFIGS[4], MOD_CONFIGS[5]])
+        cfg = base_cfg(r, mod)
+        cfg.update({"max_clients": 10, "max_subs": 10, "max_conns": 16, "max_channels": 100, "max_inflight": 10})
+        g = Gen(r, cfg)
+        ks = _login(g, ["alice", "bob", "carol"])
+        ch = "!c1@localhost"
+        fail = ["err"] * 7
+        g.send(ks["alice"], frame("JOIN", [("id", g.rid()), ("channel", ch)]), [])
+        if v == "last_leaves_rejoin":
+            # the owner tightens the channel, then leaves it empty while the notification fails
+            g.send(ks["alice"], frame("SET_CHAN_ACL", [("id", g.rid()), ("channel", ch), ("type", "join"), ("action", "add"), ("nids", ["alice@localhost"])]), [])
+            g.send(ks["alice"], frame("SET_CHAN_CONFIG", [("id", g.rid()), ("channel", ch), ("max_clients", 1), ("max_payload_size", 16)]), [])
+            g.send(ks["alice"], frame("LEAVE", [("id", g.rid()), ("channel", ch)]), fail)
+            g.send(ks["bob"], frame("JOIN", [("id", g.rid()), ("channel", ch)]), [])
+            g.ops[-1]["expect_created"] = ch       # nobody is a member any more: this JOIN creates the channel afresh
+            g.send(ks["bob"], frame("GET_CHAN_CONFIG", [("id", g.rid()), ("channel", ch)]), [])
+            g.send(ks["bob"], frame("GET_CHAN_ACL", [("id", g.rid()), ("channel", ch), ("type", "join")]), [])
+            g.send(ks["carol"], frame("JOIN", [("id", g.rid()), ("channel", ch)]), [])
+        else:
+            g.send(ks["bob"], frame("JOIN", [("id", g.rid()), ("channel", ch)]), [])
+            if r.random() < 0.5:
+                g.send(ks["carol"], frame("JOIN", [("id", g.rid()), ("channel", ch)]), [])
+            if v == "member_leaves":
+                g.send(ks["bob"], frame("LEAVE", [("id", g.rid()), ("channel", ch)]), fail)
+            elif v == "owner_kicks":
+                g.send(ks["alice"], frame("LEAVE", [("id", g.rid()), ("channel", ch), ("on_behalf", "bob@localhost")]), fail)
+            elif v == "second_connection_leaves":
+                k2 = g.next_k
+                g.next_k += 1
+                g.ops.append({"t": "open", "k": k2})
+                g.send(k2, frame("CONNECT", [("version", 1), ("heartbeat_interval", 0)]), [])
+                g.send(k2, frame("IDENTIFY", [("username", "bob")]), [])     # refused: the name is in use (no modulator auth here)
+                g.send(ks["bob"], frame("LEAVE", [("id", g.rid()), ("channel", ch)]), fail)
+            else:
+                g.ops.append({"t": "hangup", "k": ks["bob"], "script": fail})
+                del g.conns[ks["bob"]]
+            # afterwards: the departed user is outside (a broadcast by a member must not reach it), it may join again
+            g.send(ks["alice"], frame("BROADCAST", [("id", g.rid()), ("channel", ch), ("length", 5), ("qos", 0)], b"after"), [])
+            if v != "hangup_member":
+                # both views of the departed user, right now (before anything repairs them)
+                g.send(ks["bob"], frame("CHANNELS", [("id", g.rid()), ("page_size", 50)]), [])
+                g.ops[-1]["audit"] = "channels"
+                g.send(ks["bob"], frame("MEMBERS", [("id", g.rid()), ("channel", ch), ("page_size", 100)]), [])
+                g.ops[-1].update({"audit": "members", "channel": ch})
+                g.send(ks["bob"], frame("JOIN", [("id", g.rid()), ("channel", ch)]), [])
+        cases.append({"cfg": cfg, "ops": g.ops + srvmon.audit_ops(g)})
+    return cases
+
+
+def retry_identify_histories(r, thorough):
+    """directed: a connection whose IDENTIFY is REFUSED (the name is in use; a malformed name) stays connected and tries
+    again under another name.  Nothing of the refused attempt may stick: the acknowledged identity is the new name, and
+    every later request is judged for that identity — an outsider stays an outsider to the channel of the user whose
+    name it asked for first.  Ends with the audit."""
+    import srvmon
+    cases = []
+    for i in range(60 if thorough else 12):
+        cfg = base_cfg(r, None)
+        cfg.update({"max_clients": 10, "max_subs": 10, "max_conns": 16, "max_channels": 100, "max_inflight": 10})
+        g = Gen(r, cfg)
+        ks = _login(g, ["alice", "bob"])
+        ch = "!c1@localhost"
+        g.send(ks["alice"], frame("JOIN", [("id", g.rid()), ("channel", ch)]), [])
+        g.send(ks["bob"], frame("JOIN", [("id", g.rid()), ("channel", ch)]), [])
+        k = g.next_k
+        g.next_k += 1
+        g.ops.append({"t": "open", "k": k})
+        g.send(k, frame("CONNECT", [("version", 1), ("heartbeat_interval", 0)]), [])
+        victim = r.choice(["alice", "alice", "bob"])
+        for _ in range(r.choice([1, 1, 2])):
+            g.send(k, frame("IDENTIFY", [("username", r.choice([victim, victim, " " + victim, "a@b", ""]))]), [])     # refused
+        g.send(k, frame("IDENTIFY", [("username", "mallory")]), [])
+        g.conns[k] = {"phase": 2, "user": "mallory"}
+        reqs = [frame("SET_CHAN_CONFIG", [("id", g.rid()), ("channel", ch), ("max_clients", 2)]),
+                frame("SET_CHAN_ACL", [("id", g.rid()), ("channel", ch), ("type", "publish"), ("action", "add"), ("nids", ["mallory@localhost"])]),
+                frame("GET_CHAN_ACL", [("id", g.rid()), ("channel", ch), ("type", "read")]),
+                frame("GET_CHAN_CONFIG", [("id", g.rid()), ("channel", ch)]),
+                frame("MEMBERS", [("id", g.rid()), ("channel", ch)]),
+                frame("LEAVE", [("id", g.rid()), ("channel", ch), ("on_behalf", "bob@localhost")]),
+                frame("BROADCAST", [("id", g.rid()), ("channel", ch), ("length", 4), ("qos", 0)], b"evil"),
+                frame("CHANNELS", [("id", g.rid()), ("owner", True)]),
+                frame("LEAVE", [("id", g.rid()), ("channel", ch)])]
+        for q in r.sample(reqs, r.randint(3, len(reqs))):
+            g.send(k, q, [])
+        g.send(ks["alice"], frame("GET_CHAN_CONFIG", [("id", g.rid()), ("channel", ch)]), [])
+        cases.append({"cfg": cfg, "ops": g.ops + srvmon.audit_ops(g)})
+    return cases
+
+
 def split_histories(r, thorough):
     """directed (C10 at the connection loop): a request header arrives in two writes and, in between, the server
     writes something to that same connection (a MESSAGE / EVENT caused by another client, or a reply to an earlier
